@@ -73,6 +73,8 @@ def make_case(seed, i):
     removed_targets = {}
     for e in range(n_edits):
         r = rng.fork("edit", e)
+        if e > 0 and r.fork("pause").chance(0.2):
+            edits.append({"kind": "pause"})      # the person at the editor waits until the tool has gone quiet
         kind = r.weighted([("model", 5), ("import_model", 3 if state.imports else 0), ("manifest", 2), ("break_repair", 2), ("touch", 1),
                            ("import_manifest_break_repair", 2 if state.imports else 0), ("subdir", 1.5), ("replace_import_dir", 1.5 if state.imports else 0)])
         if kind == "subdir":
@@ -117,6 +119,15 @@ def make_case(seed, i):
                 t = r.choice(mfs)
                 edits.append({"kind": "write", "path": t, "data": cur[t], "steps": 1})
                 log.append("replace directory of %s, then touch %s" % (imp.dirname, t))
+                if r.chance(0.7):
+                    # ... and once the tool has gone quiet, a save inside the new copy
+                    edits.append({"kind": "pause"})
+                    imfs = E.model_files(cur, base)
+                    if imfs:
+                        q = r.choice(imfs)
+                        cur[q] = cur[q] + "\nZqRep%d: !record\n  fields:\n    v: int\n" % e
+                        edits.append({"kind": "write" if r.chance(0.5) else "atomic", "path": q, "data": cur[q], "steps": r.randint(1, 2)})
+                        log.append("pause, then save %s" % q)
             continue
         if kind == "import_manifest_break_repair":
             # an invalid intermediate state inside a *referenced* package's manifest: an import URL that cannot
@@ -380,7 +391,7 @@ def minimise(sim, rec, doc, budget_runs=60):
         if ed.get("steps", 1) > 1:
             c = copy.deepcopy(cur)
             for e2 in c["edits"]:
-                if e2["path"] == ed["path"] and e2.get("data") == ed.get("data"):
+                if e2.get("path") == ed.get("path") and e2.get("data") == ed.get("data"):
                     e2["steps"] = 1
             if still(c):
                 cur = c
